@@ -117,9 +117,14 @@ Spaces(n) == IF n = 0 THEN "" ELSE IF n = 1 THEN " " ELSE IF n = 2 THEN "  " ELS
              ELSE IF n = 4 THEN "    " ELSE IF n = 5 THEN "     " ELSE IF n = 6 THEN "      " ELSE "        "
 BulletLevel(cl) == IF cl.ind = 2 /\ cl.mark = "*" THEN 1 ELSE IF cl.ind = 4 /\ cl.mark = "-" THEN 2
                    ELSE IF cl.ind = 6 /\ cl.mark = "+" THEN 3 ELSE 0
-ContTxt(cl) == CASE cl.k = "text"    -> Spaces(cl.ind) \o JoinW(cl.w)
-                 [] cl.k = "bullet"  -> Spaces(cl.ind) \o cl.mark \o " " \o JoinW(cl.w)
-                 [] cl.k = "pbullet" -> Spaces(cl.ind) \o cl.mark \o " " \o cl.key \o ":: " \o JoinW(cl.w)
+\*   [k |-> "ws", ind, w |-> << >>]       a line of `ind` (>= 2) spaces only (the grammar admits it inside an item)
+\* A continuation line may carry `trail` trailing spaces; they belong to the body verbatim (only the very end of
+\* the body is stripped, so the last line of an item is written without them).
+Trail(cl) == IF "trail" \in DOMAIN cl THEN Spaces(cl.trail) ELSE ""
+ContTxt(cl) == CASE cl.k = "text"    -> Spaces(cl.ind) \o JoinW(cl.w) \o Trail(cl)
+                 [] cl.k = "bullet"  -> Spaces(cl.ind) \o cl.mark \o " " \o JoinW(cl.w) \o Trail(cl)
+                 [] cl.k = "pbullet" -> Spaces(cl.ind) \o cl.mark \o " " \o cl.key \o ":: " \o JoinW(cl.w) \o Trail(cl)
+                 [] cl.k = "ws"      -> Spaces(cl.ind)
 RECURSIVE ContWords(_), ContBody(_), BulletProps(_)
 ContWords(cs) == IF cs = <<>> THEN <<>> ELSE Head(cs).w \o ContWords(Tail(cs))
 ContBody(cs)  == IF cs = <<>> THEN "" ELSE "\n" \o ContTxt(Head(cs)) \o ContBody(Tail(cs))
